@@ -118,7 +118,9 @@ async fn run_async(run: usize, shards: usize, gen: &mut Gen, len: usize, two_key
     let mut now: u64 = 0;
     log.push(json!({"a": "reset", "run": run, "shards": shards}));
     let mut steps = 0;
+    let mut ttl_keys: Vec<String> = Vec::new();
     while steps < len {
+        let before_jump = now;
         match gen.rng.gen_range(0..10) {
             0..=4 => {}
             5..=6 => now += 1,
@@ -146,15 +148,28 @@ async fn run_async(run: usize, shards: usize, gen: &mut Gen, len: usize, two_key
             }
         };
         *clock.0.lock().unwrap() = 1000 + now;
+        let jumped = now - before_jump >= 100_000;
+        {
+            let name = String::from_utf8_lossy(&argv[0]).to_uppercase();
+            let has_ttl_word = argv.iter().skip(2).any(|a| a.eq_ignore_ascii_case(b"EX") || a.eq_ignore_ascii_case(b"PX"));
+            if argv.len() > 1 && (has_ttl_word || matches!(name.as_str(), "SETEX" | "PSETEX" | "EXPIRE" | "PEXPIRE" | "GETEX")) {
+                let k = String::from_utf8_lossy(&argv[1]).to_string();
+                if !ttl_keys.contains(&k) {
+                    ttl_keys.push(k);
+                }
+            }
+        }
         // the TTL manager's tick (active expiry on every shard) may fall between any two commands: it removes what
         // has expired and nothing else, so the model has no step for it
-        let ticked = gen.rng.gen_range(0..6) == 0;
+        // (after a long jump of the clock the tick is likelier: that is when deadlines have come due)
+        let ticked = gen.rng.gen_range(0..6) == 0 || (jumped && gen.rng.gen_bool(0.5));
         if ticked {
             let _ = st.evict_expired_all_shards().await;
         }
-        // right after a tick, more often than not, a plain GET (on whichever path) of some key: the tick has told every shard the time
+        // right after a tick, more often than not, a plain GET (on whichever path) of some key - preferably one that was given a
+        // TTL earlier in the run: the tick has told every shard the time
         let (c, argv) = if ticked && !want_two && gen.rng.gen_bool(0.6) {
-            let k = gen.keys[gen.rng.gen_range(0..gen.keys.len())].clone();
+            let k = if !ttl_keys.is_empty() && gen.rng.gen_bool(0.7) { ttl_keys[gen.rng.gen_range(0..ttl_keys.len())].clone() } else { gen.keys[gen.rng.gen_range(0..gen.keys.len())].clone() };
             (json!({"op": "GET", "k": k}), vec![b("GET"), k.clone().into_bytes()])
         } else {
             (c, argv)
